@@ -18,8 +18,13 @@ SPEC = {
             "state) are compared with the Model and judged by the monitor. Streams: bfs = breadth-first over abstract "
             "fingerprints of the implementation (state, timer set, fresh/stale expiry available, restartCount class, ack "
             "bits) x 32 event kinds, one case per edge; random = sequences to depth 8 (thorough 24); silent = Open+Up, "
-            "0-3 packets, then only expiries; live = the same generators with the always-terminates clause switched on. "
-            "distinct = distinct Coq case terms",
+            "0-3 packets, then only expiries; optsweep = enumerated option lists of a Configure-Request (each numeric option over "
+            "{min-1,min,min+1,default,max-1,max,max+1,0,0xFFFF}, every length around the coded one, values equal/adjacent to our own "
+            "magic number / interface id / assigned address, unknown types, data-less last option, duplicated and reordered options) "
+            "x the states that answer a request, plus the value rules of a received Configure-Nak; reneg = negotiation, Down/Up or "
+            "Close/Open cycle, second negotiation (IPCP mostly with a static address), and identifier wrap 255->0; exhaust = "
+            "protocol x configured count x 22 configure/terminate phase paths, then expiries to the end; live = the random, silent, "
+            "exhaust and reneg generators with the always-terminates clause switched on. distinct = distinct Coq case terms",
     "assumptions": [
         "timer expiry is delivered by calling timeout() through the verif hook (RestartTimer = 1h, never fires by itself): "
         "the scheduling of time.AfterFunc goroutines is modelled by explicit EFire tokens, not executed",
@@ -28,8 +33,10 @@ SPEC = {
         "LCP negotiated.Peer*/AuthProtocol/CHAPAlgorithm and failureCount are written but never read by the automaton and are not observed",
         "NCP copies ignore Code-Reject/Protocol-Reject (RFC 1661 RXJ-); the property text does not name them, T2 covers them for LCP only",
         "identifier is 8 bit: an Ack for the request 256 requests ago is indistinguishable from a current one (protocol, not code)",
-        "T4 Nak for LCP Magic-Number / IPv6CP Interface-Identifier: the theorem states order and types; that the Nak'd option "
-        "was offending (zero or equal to our current value) is checked by the monitor on every trace, proved only for IPCP",
+        "the monitor's 'offending' for LCP Magic-Number / IPv6CP Interface-Identifier compares with our value before and after the "
+        "event; the theorems (T4x) use the value current when the option is examined (a collision regenerates it in mid-list): the two "
+        "differ only for a request with two such options whose second equals the freshly generated value; the Nak suggestion for "
+        "these two options is proved as '4 / 8 bytes' (its value is the crypto/rand oracle)",
     ],
     "modelled": ["pkg/pppoe/protocol.go ParseLCPPacket, ParseLCPOptions, SerializeLCPOptions, LCPPacket.Serialize",
                  "pkg/pppoe/lcp.go, ipcp.go, ipv6cp.go: New*, Up, Down, Open, Close, closeInternal, ReceivePacket and every receive*/send* "
@@ -41,13 +48,19 @@ MANIFEST = {
             "received bytes, with restart counter, identifiers, explicit timer tokens (regular and stale expiry) and the three "
             "option processors. Proved for every option processor, configuration and event sequence: Opened implies mutual "
             "acknowledgement of the latest requests (stale expiries included, after fix 9b2a861/8c383e7); every renegotiation/"
-            "terminate/down event leaves Opened; every reply echoes the request identifier; an Ack repeats the options, a Reject "
-            "lists only unacceptable options of the request, a Nak only its option types (IPCP: only offending ones); IPCP acks "
-            "only the assigned address when one is assigned (refuted without: known finding K11c); Open+Up then silence sends "
-            "exactly max(count,1) requests and stops; silence in any state terminates under the guard 'restart timer running' "
-            "and is refuted without it (known finding K11b), with a theorem that only five receive handlers can lose the guard. "
+            "terminate/down event leaves Opened; every reply echoes the request identifier; for every option list of a "
+            "Configure-Request, at value level (MRU bounds, magic number zero/own, address zero/assigned/other, DNS, interface id "
+            "zero/own, lengths, unknown types): a Reject lists exactly the unknown/malformed options, otherwise an Ack repeats the "
+            "option bytes iff every option is acceptable, otherwise a Nak lists exactly the offending options in order with the coded "
+            "suggestion, and the automaton moves (Ack-Rcvd to Opened) by that same predicate, which is also the one the trace monitor "
+            "uses; IPCP acks only the assigned address when one is assigned, after every history incl. Down/Up cycles (refuted "
+            "without an assignment: known finding K11c); Open+Up then silence sends exactly max(count,1) requests and stops; "
+            "silence in any state terminates if and only if the state is 'live' (terminal or restart timer running): refuted in "
+            "general (known finding K11b), with a theorem that only five receive handlers can lose the guard. "
             "Every run drives the real state machines (timer expiry through a verif hook, crypto/rand scripted) over a "
-            "breadth-first exploration of their abstract state graph plus random and silent-peer sequences and compares packets, "
+            "breadth-first exploration of their abstract state graph plus random and silent-peer sequences, an enumerated sweep of "
+            "option values at their acceptance boundaries in every state, renegotiation across Down/Up and Close/Open, identifier "
+            "wrap and restart-counter exhaustion in every phase, and compares packets, "
             "state, counters, identifiers and timer flag with the Model inside Coq; a trace monitor of the property judges the "
             "implementation's traces.",
     "note": "Theorems are about the hand-written Model; the tie to pkg/pppoe is the differential run (sampled / abstract-graph "
